@@ -28,6 +28,25 @@ def cases(rng, tier):
         pairs = rng.sample(pairs, 700)
     for a, b in pairs:
         yield Case(program=render(bi('ㄴ', a.expr, b.expr)), tag='edge-pair', monitor='c06_expect', data=pybool(VL.spec_eq(a, b)))
+    # (1w) host-equal values of *different kinds* inside every kind of container (seeded change S06g dropped the kind
+    # tag of scalars inside lists / exceptions / actions): wrapped pairs compare, and key dictionaries, like the bare ones
+    T, F = VL.vbool(True), VL.vbool(False)
+    cross = [(T, VL.vint(1)), (T, VL.vfloat(1.0)), (T, VL.vcomplex(1.0, 0.0)), (F, VL.vint(0)), (F, VL.vfloat(0.0)),
+             (F, VL.vfloat(-0.0)), (F, VL.vcomplex(0.0, 0.0)), (T, VL.vstr("True")), (VL.vint(1), VL.vstr("1")),
+             (VL.vstr(""), VL.vbytes(b"")), (VL.vstr("1"), VL.vbytes(b"1")), (VL.vnil(), VL.vlist([])), (VL.vlist([]), VL.vexc([])),
+             (VL.vint(0), VL.vnil()), (VL.vint(0), VL.vstr("")), (F, VL.vnil()), (VL.vint(1), VL.vfloat(1.0)), (T, T), (F, F)]
+    wraps = [('list', lambda x: VL.vlist([x])), ('list2', lambda x: VL.vlist([VL.vint(7), x])), ('exc', lambda x: VL.vexc([x])),
+             ('io', VL.vio), ('list-list', lambda x: VL.vlist([VL.vlist([x])])), ('exc-list', lambda x: VL.vexc([VL.vlist([x])])),
+             ('io-list', lambda x: VL.vio(VL.vlist([x]))), ('dict-value', lambda x: VL.vdict([(VL.vint(3), x)])),
+             ('dict-key', lambda x: VL.vdict([(x, VL.vint(3))]))]
+    for a, b in cross:
+        for wn, wf in wraps:
+            wa, wb = wf(a), wf(b)
+            yield Case(program=render(bi('ㄴ', wa.expr, wb.expr)), tag='cross-kind-' + wn, monitor='c06_expect', data=pybool(VL.spec_eq(wa, wb)))
+            if wn in ('list', 'exc', 'io', 'list-list'):
+                d = VL.vdict([(wa, VL.vint(5)), (wb, VL.vint(6))])
+                want = '6' if VL.spec_eq(wa, wb) else '5'
+                yield Case(program=render(call(d.expr, wa.expr)), tag='cross-kind-key-' + wn, monitor='c06_expect', data=want)
     # (1a) strings: equal iff the same code points — no normalisation, no case / width folding
     strs = [VL.vstr(x) for x in ["가", "\u1100\u1161", "\u00e9", "e\u0301", "\u212b", "\u00c5", "A\u030a", "\uf900", "\u8c48", "a", "A", "ａ", "", " "]]
     for x in strs:
